@@ -97,7 +97,11 @@ func ParseArgs() Args {
 func NewRun(id, tier, level string) *Run {
 	seed, _ := strconv.Atoi(os.Getenv("VERIF_SEED"))
 	r := &Run{ID: id, Tier: tier, Seed: seed, Level: level, Start: time.Now(), knownHits: map[string]int{}, maxReport: 5}
-	b, err := os.ReadFile(filepath.Join(Root(), "known_findings.json"))
+	kf := filepath.Join(Root(), "known_findings.json")
+	if alt := os.Getenv("VERIF_KNOWN_FINDINGS"); alt != "" {
+		kf = alt
+	}
+	b, err := os.ReadFile(kf)
 	if err == nil {
 		var all struct {
 			Findings []KnownFinding `json:"findings"`
